@@ -70,6 +70,10 @@ type cop struct {
 type plan struct {
 	Mode    string
 	Index   string
+	// MaxLogFile: size at which the disk-based index swaps and compacts its
+	// log file (0 = the default of 1 MiB, never reached here; a few hundred
+	// bytes = a swap every few new series, while other clients insert)
+	MaxLogFile int64
 	Clients [][]cop
 	Cmds    []metacmd.Cmd // meta mode
 	PoolMax int
@@ -94,6 +98,7 @@ func genPlan(t *rapid.T) interface{} {
 	p := &plan{}
 	p.Mode = rapid.SampledFrom([]string{"store", "store", "store", "handoff", "meta", "pool"}).Draw(t, "mode")
 	p.Index = rapid.SampledFrom([]string{"inmem", "tsi1"}).Draw(t, "index")
+	p.MaxLogFile = rapid.SampledFrom([]int64{0, 0, 256, 1024}).Draw(t, "maxlogfile")
 	nc := rapid.IntRange(2, 5).Draw(t, "nclients")
 	var kinds []string
 	switch p.Mode {
@@ -255,7 +260,7 @@ type wrec struct {
 }
 
 func execStore(run *core.Run, p *plan) {
-	sim, err := storesim.Open(filepath.Join(run.Scratch, "s"), storesim.Opts{Index: p.Index})
+	sim, err := storesim.Open(filepath.Join(run.Scratch, "s"), storesim.Opts{Index: p.Index, MaxLogFile: p.MaxLogFile})
 	if err != nil {
 		run.Fail("harness-error", "", "open: %v", err)
 		return
@@ -1152,7 +1157,7 @@ func describe(pl interface{}) interface{} {
 		cl = append(cl, strings.Join(s, " "))
 	}
 	sort.Strings(nil)
-	return map[string]interface{}{"mode": p.Mode, "index": p.Index, "clients": cl, "commands": len(p.Cmds), "pool_max": p.PoolMax, "idle_s": p.Idle}
+	return map[string]interface{}{"mode": p.Mode, "index": p.Index, "max_log_file": p.MaxLogFile, "clients": cl, "commands": len(p.Cmds), "pool_max": p.PoolMax, "idle_s": p.Idle}
 }
 
 var _ = tsdb.ErrShardNotFound
